@@ -379,13 +379,13 @@ def sql_update(ex, key, tbl, stt, params, e):
             ex.require(Not(isn), "NullIntoKeyColumn", e)
         nc = fresh("%s.%s~upd" % (key, c), ArraySort(INT, sort_of(col.kind)))
         ex.assume(FA([INT], lambda r, nc=nc, c=c, t=t: nc[r] == If(And(tbl.live[r], pred(r)), t, tbl.cols[c][r]),
-                     pats=lambda r, nc=nc: [nc[r]]))
+                     pats=lambda r, nc=nc, c=c: [nc[r], tbl.cols[c][r]]))
         cols[c] = nc
         if col.nullable:
             nn = fresh("%s.%s.null~upd" % (key, c), ArraySort(INT, BOOL))
             ex.assume(FA([INT], lambda r, nn=nn, c=c, isn=isn: nn[r] == If(And(tbl.live[r], pred(r)), isn,
                                                                           tbl.nulls[c][r]),
-                         pats=lambda r, nn=nn: [nn[r]]))
+                         pats=lambda r, nn=nn, c=c: [nn[r], tbl.nulls[c][r]]))
             nulls[c] = nn
     ex.st.tabs[key] = tbl.with_(cols=cols, nulls=nulls)
     return VCursor("update")
@@ -401,6 +401,6 @@ def sql_delete(ex, key, tbl, stt, params, e):
                                                        ctbl.get(ccol, q) == tbl.get(pcol, r)))),
                    "IntegrityError", e)
     nl = fresh("%s.live~del" % key, ArraySort(INT, BOOL))
-    ex.assume(FA([INT], lambda r: nl[r] == And(tbl.live[r], Not(pred(r))), pats=lambda r: [nl[r]]))
+    ex.assume(FA([INT], lambda r: nl[r] == And(tbl.live[r], Not(pred(r))), pats=lambda r: [nl[r], tbl.live[r]]))
     ex.st.tabs[key] = tbl.with_(live=nl)
     return VCursor("delete")
